@@ -47,9 +47,10 @@ type Item struct {
 	Pre  string    `json:"prefix,omitempty"`
 	Top  string    `json:"topic,omitempty"`
 	// oracle bookkeeping
-	X       int                 `json:"x,omitempty"`      // session: original index of X
-	Denied  bool                `json:"denied,omitempty"` // session: the booking was denied first
-	Codes0  int                 `json:"codes0,omitempty"` // session: code store size before / after
+	X       int                 `json:"x,omitempty"`          // session: original index of X
+	Denied  bool                `json:"denied,omitempty"`     // session: the booking was denied first
+	DenBid  string              `json:"denied_bid,omitempty"` // session: which booking id was denied
+	Codes0  int                 `json:"codes0,omitempty"`     // session: code store size before / after
 	Codes1  int                 `json:"codes1,omitempty"`
 	Inbox   map[string][]string `json:"inbox,omitempty"`   // relay: messages received per User-Agent number
 	Attempt map[string]string   `json:"attempt,omitempty"` // relay: UA -> plan label
@@ -112,6 +113,7 @@ func genSession(r *lib.Rng, n int, mocks map[bool]*acc.Env) Item {
 		d.Method, d.Target = acc.TargetFor("deny", "", d.Bid, d.Exp)
 		ops = append(ops, acc.Op{K: "req", Req: &d})
 		it.Denied = true
+		it.DenBid = bk
 	}
 	if r.Chance(1, 10) { // the clock moves between issue time and request
 		ops = append(ops, acc.Op{K: "setnow", T: now + int64(r.Range(1, 70))})
@@ -147,12 +149,13 @@ func oracleSession(it Item, idx int, res *lib.Result) {
 	}
 	cl := x.Auth.Classify().Claims
 	// the spec predicate: a currently valid token naming exactly the requested topic, booking id rules
-	ok := x.Auth.Good(now, c.Cfg.Host) && cl.Topic == x.ID && (cl.Booking != "" || c.Cfg.AE) && !it.Denied
+	denied := it.Denied && cl.Booking == it.DenBid // a mutation may have changed the booking id the token carries
+	ok := x.Auth.Good(now, c.Cfg.Host) && cl.Topic == x.ID && (cl.Booking != "" || c.Cfg.AE) && !denied
 	bad := func(clause, detail string) {
 		hv, _ := x.Auth.Build("<secret>")
 		res.Violate(lib.Violation{Clause: clause, Case: idx, Key: clause + ":" + part(x.Auth.Label) + "/" + part(x.Label), Replay: it,
 			Detail: fmt.Sprintf("POST %s (bound id %q; bearer %s, request %s, booking denied=%v, AllowNoBookingID=%v) at clock %d: %s; token as built (secret elided): %s",
-				x.Target, x.ID, x.Auth.Label, x.Label, it.Denied, c.Cfg.AE, now, detail, hv)})
+				x.Target, x.ID, x.Auth.Label, x.Label, denied, c.Cfg.AE, now, detail, hv)})
 	}
 	if o.NoAnswer != "" {
 		bad("answered", "no HTTP response: "+o.NoAnswer)
